@@ -1,5 +1,5 @@
 (* C10 - lemmas about Model/Teardown.v *)
-From Coq Require Import NArith String List Bool Arith Lia.
+From Coq Require Import NArith String List Bool Arith Lia Permutation.
 From UPF Require Import Base.LTS Model.Teardown Proofs.TeardownInv
   Proofs.TeardownInvRd Proofs.TeardownInvSel Proofs.TeardownInvHb Proofs.TeardownInvFst.
 Import ListNotations.
@@ -11,7 +11,7 @@ Lemma step_assoc sess me r alt nd a res :
   match res with
   | Ok (nd', a', t') => (AInv sess (set_thr a' r t') /\ delta me r a nd nd' (set_thr a' r t')) /\ node_frame nd nd'
   | Blocked => True
-  | Panic site => cclosed (n_pcd nd) = true /\ site = "send on closed channel"%string /\ at_pc a r FDo 5 = true
+  | Panic site => cclosed (n_pcd nd) = true /\ site = "send on closed channel"%string /\ at_pc a r FDo 6 = true
   end.
 Proof.
   intros Hr. destruct r; try discriminate Hr.
@@ -60,9 +60,10 @@ Definition GInv (cfg : list acfg) (s : state) : Prop := Forall2 AInv (map c_sess
 Lemma ainv_init c : AInv (c_sess c) (init_assoc c).
 Proof.
   destruct c as [sess hb [d|]]; destruct hb;
-    unfold AInv, fn_ok, Data, tmo_ok, hb_ok, life_ok, not_started, code_len, init_assoc, crt_t, bg_t, early_t; cbn;
+    unfold AInv, fn_ok, Data, tmo_ok, hb_ok, life_ok, inst_ok, rd_ok, accounted, not_started, code_len, init_assoc, crt_t, bg_t, early_t; cbn;
     repeat (split; try reflexivity); try (left; reflexivity); try discriminate; try (intros; congruence);
-    try (right; split; [reflexivity|split; [discriminate|lia]]); try (intros [?|?]; discriminate); auto.
+    try (right; split; [reflexivity|split; [discriminate|lia]]); try (intros [?|?]; discriminate);
+    try (exists []; rewrite app_nil_r; reflexivity); auto.
 Qed.
 
 Lemma ginv_init cap cfg ev : GInv cfg (init_cap cap cfg ev).
@@ -70,8 +71,13 @@ Proof.
   unfold GInv, init_cap. cbn. induction cfg as [|c r IH]; cbn; constructor; [apply ainv_init|exact IH].
 Qed.
 
-Lemma ainv_set_inbox sess a v : AInv sess a -> AInv sess (set_inbox a v).
-Proof. destruct a. exact (fun H => H). Qed.
+Lemma ainv_set_inbox sess a d : AInv sess a -> AInv sess (set_inbox a (a_inbox a ++ [d])).
+Proof.
+  destruct a. intros (H1 & H2 & H3 & H4 & H5 & H6 & H7 & H8 & H9 & (H10 & H11)).
+  split; [exact H1|]. split; [exact H2|]. split; [exact H3|]. split; [exact H4|]. split; [exact H5|].
+  split; [exact H6|]. split; [exact H7|]. split; [exact H8|]. split; [exact H9|]. split; [|exact H11].
+  cbn. intros _ _ _ Hn. apply app_eq_nil in Hn. destruct Hn. discriminate.
+Qed.
 Lemma ainv_set_tmo_armed sess a v : AInv sess a -> AInv sess (set_tmo_armed a v).
 Proof. destruct a. exact (fun H => H). Qed.
 Lemma ainv_set_hb_armed sess a v : AInv sess a -> AInv sess (set_hb_armed a v).
@@ -134,34 +140,104 @@ Proof.
   - destruct (N.eqb_spec x y) as [->|Hne]; [tauto|]. apply IH. exact Hi.
 Qed.
 
-(* the delete commands issued so far are always a prefix of the association's session list *)
-Lemma ainv_prefix sess a : AInv sess a -> exists rest, a_del a ++ rest = sess.
+(* the delete commands issued so far, together with what is still to be deleted, are the installed sessions *)
+Lemma ainv_perm sess a : AInv sess a -> exists rest, Permutation (a_del a ++ rest) (a_inst a).
 Proof.
-  intros (Hrd & Hsel & Hhb & Hfst & Hd & _). unfold Data in Hd. destruct (a_once a) as [|r0|].
-  - destruct Hd as (-> & _). exists sess. reflexivity.
-  - destruct Hd as (_ & _ & _ & Hb). unfold Body in Hb.
-    destruct (t_pc (get_thr a r0)) as [|[|[|[|[|[|[|[|p]]]]]]]]; try (exfalso; exact Hb).
-    + destruct Hb as (-> & _). exists sess. reflexivity.
-    + destruct Hb as (-> & _). exists sess. reflexivity.
-    + destruct Hb as (-> & _). exists sess. reflexivity.
+  intros (Hrd & Hsel & Hhb & Hfst & Hd & _). unfold Data, accounted in Hd. destruct (a_once a) as [|r0|].
+  - destruct Hd as (H & _). eauto.
+  - destruct Hd as (_ & _ & _ & Hb). unfold Body, accounted in Hb.
+    destruct (t_pc (get_thr a r0)) as [|[|[|[|[|[|[|[|[|p]]]]]]]]]; try (exfalso; exact Hb).
+    + destruct Hb as (H & _). eauto.
+    + destruct Hb as (H & _). eauto.
+    + destruct Hb as (H & _). eauto.
+    + destruct Hb as (H & _). eauto.
     + destruct Hb as (x & r & _ & _ & H & _). eauto.
     + destruct Hb as (x & r & d & _ & _ & -> & H & _). exists r. rewrite <- app_assoc. exact H.
-    + destruct Hb as (-> & _). exists []. apply app_nil_r.
-    + destruct Hb as (-> & _). exists []. apply app_nil_r.
-    + destruct Hb as (-> & _). exists []. apply app_nil_r.
-  - destruct Hd as (-> & _). exists []. apply app_nil_r.
+    + destruct Hb as (_ & H & _). exists []. rewrite app_nil_r. exact H.
+    + destruct Hb as (_ & H & _). exists []. rewrite app_nil_r. exact H.
+    + destruct Hb as (_ & H & _). exists []. rewrite app_nil_r. exact H.
+  - destruct Hd as (_ & H & _). exists []. rewrite app_nil_r. exact H.
 Qed.
 
-Lemma ainv_at_most_once sess a x : AInv sess a -> NoDup sess -> count x (a_del a) <= 1.
+Lemma ainv_at_most_once sess a x : AInv sess a -> NoDup (a_inst a) -> count x (a_del a) <= 1.
 Proof.
-  intros Ha Hn. destruct (ainv_prefix _ _ Ha) as [rest <-].
-  pose proof (count_nodup x _ Hn) as H. rewrite count_app in H. lia.
+  intros Ha Hn. destruct (ainv_perm _ _ Ha) as [rest Hp].
+  assert (Hn2 : NoDup (a_del a ++ rest)) by (eapply Permutation_NoDup; [symmetry; exact Hp | exact Hn]).
+  pose proof (count_nodup x _ Hn2) as H. rewrite count_app in H. lia.
 Qed.
 
-Lemma ainv_done_exact sess a : AInv sess a -> a_once a = ODone -> a_del a = sess /\ a_store a = [].
+Lemma ainv_done_exact sess a : AInv sess a -> a_once a = ODone -> Permutation (a_del a) (a_inst a) /\ a_store a = [].
 Proof. intros (_ & _ & _ & _ & Hd & _) Ho. unfold Data in Hd. rewrite Ho in Hd. tauto. Qed.
 
+Lemma ainv_inst sess a : AInv sess a -> exists extra, a_inst a = sess ++ extra.
+Proof. intros (_ & _ & _ & _ & _ & _ & _ & _ & H & _). exact H. Qed.
+
 Definition nodup_cfg (cfg : list acfg) : Prop := forall c, In c cfg -> NoDup (c_sess c).
+
+Lemma NoDup_app_fresh {A} (l : list A) x : NoDup l -> ~ In x l -> NoDup (l ++ [x]).
+Proof.
+  intros Hn Hx. induction Hn as [|y l Hy Hn IH]; cbn; [constructor; [tauto|constructor]|].
+  constructor.
+  - intros Hi. apply in_app_or in Hi. destruct Hi as [Hi|[->|[]]]; [tauto|]. apply Hx. left. reflexivity.
+  - apply IH. intros Hi. apply Hx. right. exact Hi.
+Qed.
+
+Lemma memN_false_notin x l : memN x l = false -> ~ In x l.
+Proof.
+  induction l as [|y l IH]; cbn; [tauto|]. intros H. apply orb_false_elim in H. destruct H as [H1 H2].
+  intros [->|Hi]; [rewrite N.eqb_refl in H1; discriminate | exact (IH H2 Hi)].
+Qed.
+
+(* UP-chosen SEIDs are fresh: the list of installed sessions never repeats an element *)
+Definition NDInv (s : state) : Prop := forall a, In a (s_asc s) -> NoDup (a_inst a).
+
+Lemma in_upd {A} (l : list A) i x y : In y (upd l i x) -> y = x \/ In y l.
+Proof.
+  revert i. induction l as [|z l IH]; intros [|i]; cbn; auto.
+  - intros [<-|H]; auto.
+  - intros [<-|H]; auto. destruct (IH _ H); auto.
+Qed.
+
+Lemma ndinv_step cfg s l s' : GInv cfg s -> NDInv s -> step s l = Some s' -> NDInv s'.
+Proof.
+  intros Hg Hn H. unfold step in H. destruct (dead s); [discriminate|].
+  destruct l as [k|alt| | |i r alt].
+  - destruct (nth_error (s_env s) k) as [e|]; [|discriminate]. injection H as <-. intros a Ha. cbn in Ha.
+    destruct e as [j d|j|j| |]; cbn in Ha; try (apply Hn; exact Ha);
+      (destruct (nth_error (s_asc s) j) as [b|] eqn:Eb; cbn in Ha; [|apply Hn; exact Ha]);
+      (apply in_upd in Ha; destruct Ha as [->|Ha]; [|apply Hn; exact Ha]);
+      pose proof (Hn b (nth_error_In _ _ Eb)) as Hb; destruct b; exact Hb.
+  - destruct (Nat.leb 3 alt); [discriminate|].
+    destruct (thread_step 0 RNode alt (s_node s) assoc0 (n_thr (s_node s))) as [[[nd' a'] t']| |site];
+      try discriminate; injection H as <-; exact Hn.
+  - destruct (thread_step 0 RStop 0 (s_node s) assoc0 (n_stop (s_node s))) as [[[nd' a'] t']| |site];
+      try discriminate; injection H as <-; exact Hn.
+  - destruct (thread_step 0 RPeers 0 (s_node s) assoc0 (n_peers (s_node s))) as [[[nd' a'] t']| |site];
+      try discriminate; injection H as <-; exact Hn.
+  - destruct (negb (is_assoc_role r) || (Nat.leb 3 alt)) eqn:Eg; [discriminate|].
+    apply orb_false_elim in Eg. destruct Eg as [Er _]. apply negb_false_iff in Er.
+    destruct (nth_error (s_asc s) i) as [a|] eqn:Ea; [|discriminate].
+    destruct (Forall2_nth _ _ _ _ _ Hg Ea) as (se & Hs & Ha).
+    pose proof (step_assoc se (N.of_nat i) r alt (s_node s) a _ Er Ha eq_refl) as Hstep.
+    destruct (thread_step (N.of_nat i) r alt (s_node s) a (get_thr a r)) as [[[nd' a'] t']| |site];
+      try discriminate; injection H as <-; [|exact Hn].
+    destruct Hstep as [[_ (_ & _ & _ & _ & _ & _ & _ & Di & _)] _].
+    intros b Hb. cbn in Hb. apply in_upd in Hb. destruct Hb as [->|Hb]; [|apply Hn; exact Hb].
+    pose proof (Hn a (nth_error_In _ _ Ea)) as Hna.
+    destruct Di as [->|(x & Hx & ->)]; [exact Hna|].
+    apply NoDup_app_fresh; [exact Hna | apply memN_false_notin; exact Hx].
+Qed.
+
+Lemma ndinv_run cfg ev sch : nodup_cfg cfg -> NDInv (run (init cfg ev) sch).
+Proof.
+  intros Hc.
+  assert (H : GInv cfg (run (init cfg ev) sch) /\ NDInv (run (init cfg ev) sch)).
+  { unfold run. apply (run_inv state tid step (fun s => GInv cfg s /\ NDInv s)).
+    - intros s l s' [Hg Hn] Hs. split; [eapply ginv_step; eauto | eapply ndinv_step; eauto].
+    - split; [apply ginv_init|]. intros a Ha. unfold init, init_cap in Ha. cbn in Ha.
+      apply in_map_iff in Ha. destruct Ha as (c & <- & Hin). destruct c as [se hb [d|]]; cbn; apply (Hc _ Hin). }
+  destruct H as [_ H]. exact H.
+Qed.
 
 Theorem at_most_once_all cfg ev sch i x :
   nodup_cfg cfg -> deleted (run (init cfg ev) sch) i x <= 1.
@@ -171,22 +247,27 @@ Proof.
   assert (Hg : GInv cfg (run (init cfg ev) sch)) by (apply (ginv_reach cfg ev); apply (reach_run state tid step)).
   destruct (Forall2_nth _ _ _ _ _ Hg E) as (se & Hs & Ha).
   apply (ainv_at_most_once se); [exact Ha|].
-  apply nth_error_In in Hs. apply in_map_iff in Hs. destruct Hs as (c & <- & Hc). apply Hn. exact Hc.
+  apply (ndinv_run cfg ev sch Hn). eapply nth_error_In; eauto.
 Qed.
 
+(* an ended association: the store is empty and every session that was ever installed for it - configured, or
+   established by a request that was handled before the teardown - has been deleted from the datapath exactly once *)
 Theorem ended_exactly_once cfg ev sch i c a :
   nodup_cfg cfg -> nth_error cfg i = Some c ->
   nth_error (s_asc (run (init cfg ev) sch)) i = Some a -> a_once a = ODone ->
-  a_store a = [] /\ forall x, In x (c_sess c) -> deleted (run (init cfg ev) sch) i x = 1.
+  a_store a = [] /\ (forall x, In x (a_inst a) -> deleted (run (init cfg ev) sch) i x = 1)
+  /\ (forall x, In x (c_sess c) -> In x (a_inst a)).
 Proof.
   intros Hn Hc Ea Ho.
   assert (Hg : GInv cfg (run (init cfg ev) sch)) by (apply (ginv_reach cfg ev); apply (reach_run state tid step)).
   destruct (Forall2_nth _ _ _ _ _ Hg Ea) as (se & Hs & Ha).
   assert (se = c_sess c) as ->.
   { rewrite nth_error_map, Hc in Hs. cbn in Hs. congruence. }
-  destruct (ainv_done_exact _ _ Ha Ho) as [Hd Hst]. split; [exact Hst|].
-  intros x Hx. unfold deleted. rewrite Ea, Hd. apply count_in_nodup; [|exact Hx].
-  apply Hn. eapply nth_error_In; eauto.
+  destruct (ainv_done_exact _ _ Ha Ho) as [Hd Hst]. split; [exact Hst|]. split.
+  - intros x Hx. unfold deleted. rewrite Ea. apply count_in_nodup.
+    + eapply Permutation_NoDup; [symmetry; exact Hd|]. apply (ndinv_run cfg ev sch Hn). eapply nth_error_In; eauto.
+    + eapply Permutation_in; [symmetry; exact Hd | exact Hx].
+  - intros x Hx. destruct (ainv_inst _ _ Ha) as [extra ->]. apply in_or_app. left. exact Hx.
 Qed.
 
 (* ================================================================== without Stop nothing can panic *)
